@@ -200,6 +200,38 @@ def lean_node(n, ind):
     return '%s.loop %d %d %d %d %s [\n%s]' % (pad, n['id'], n['pos'], n['usage'], n['rep'], lb(n['wrapper']), ch)
 
 
+def skel_elem(e):
+    return [e['xid'], e['seq'], e['usage'], e['de'], int(e['isID']), int(e['isAN']), len(e['codes'])] + e['codes'] + \
+        [e['ncodes'], e['ext'], int(e['regex'])]
+
+
+def skel_numbers(nodes):
+    """flat preorder encoding of the skeleton for the model driver (parsed by Drv/Walk.lean)"""
+    out = [len(nodes)]
+
+    def node(n):
+        if n['kind'] == 'seg':
+            out.extend([0, n['id'], n['qual'], n['pos'], n['usage'], n['maxUse'], len(n['notes'])])
+            for t, ps in n['notes']:
+                out.extend([t, len(ps)] + ps)
+            out.append(len(n['children']))
+            for kind, d in n['children']:
+                if kind == 'elem':
+                    out.append(0)
+                    out.extend(skel_elem(d))
+                else:
+                    out.extend([1, d['xid'], d['seq'], d['usage'], d['de'], len(d['subs'])])
+                    for sub in d['subs']:
+                        out.extend(skel_elem(sub))
+        else:
+            out.extend([1, n['id'], n['pos'], n['usage'], n['rep'], int(n['wrapper']), len(n['children'])])
+            for c in n['children']:
+                node(c)
+    for n in nodes:
+        node(n)
+    return out
+
+
 def modname(fname):
     return 'M' + re.sub(r'[^A-Za-z0-9]', '_', fname[:-4])
 
@@ -281,7 +313,8 @@ def main():
         # the Lean side lists violations in document order: per-node rules first (pre-order), then fetch rules
         def order(v):
             return (1 if v[0] == RULES['fetch'] else 0, v[1], 0)
-        side['maps'][f] = {'module': mn, 'nodes': mx.nodes, 'expected': exp, 'xid': mx.xid}
+        side['maps'][f] = {'module': mn, 'nodes': mx.nodes, 'expected': exp, 'xid': mx.xid, 'xid_n': I(mx.xid),
+                           'skel': ' '.join(str(x) for x in skel_numbers(mx.children))}
         chk = ['/- generated by tools/xlate.py -- do not edit -/', 'import Gen.Tables', 'import Gen.Maps.' + mn,
                'open Pyx12Verif.MapSkel', 'set_option maxRecDepth 1000000', 'namespace Gen', '',
                '/-- the violations of %s are exactly the known findings (as a set) -/' % f,
@@ -310,6 +343,7 @@ def main():
             if fn.endswith('.lean') and fn not in keep and fn != 'Index.lean':
                 os.remove(os.path.join(d, fn))
     side['strings'] = I.rev
+    side['consts'] = {'ENT': ent, 'HL': hl, 'CTX': ctx}
     os.makedirs(WORKGEN, exist_ok=True)
     with open(os.path.join(WORKGEN, 'tables.json'), 'w') as f:
         json.dump(side, f)
